@@ -239,7 +239,7 @@ def run(tier: str, seed: int) -> Report:
             never = [a for a, (n, _d) in res.coverage.items() if n == 0 and a != "Init"]
             if never:
                 raise Machinery(f"UdsClientMutex: actions never taken: {never}")
-    res = tlc.run_tlc("MC_UdsClientMutex", "MC_UdsClientMutex_dev.cfg", timeout=600)
+    res = tlc.run_tlc("MC_UdsClientMutex", "MC_UdsClientMutex_dev.cfg", timeout=600, workers=1)
     rep.add_tlc(res, "MC_UdsClientMutex_dev (negative control)")
     if res.violated != "M_ContractHolds":
         raise Machinery(f"negative control did not violate M1 (got {res.violated})")
